@@ -49,6 +49,7 @@ c.finish(
         "a suspected violation is re-run three times in fresh processes before it is reported",
         "for JBIG2 inputs with many large regions the LIVE heap is sampled during the decode (runtime.GC + HeapAlloc every 2 ms) against StreamBudget(rawLen) + 1 MiB: this ties the pool model's live <= peak <= taken invariant to the bytes really reachable, by measurement; for those cases the cumulative TotalAlloc is not judged",
         "progressive JPEGs built by the harness from scan scripts (DC/AC, first pass/refinement, EOB-run tokens, restart intervals; up to 10000 scans of 26 bytes over 131044 blocks in the quick tier) run in a process of their own under the general watchdog (5 s + 50 us per byte of CPU time): the decoder's own bound is maxProgPasses = 64 walks over at most StreamBudget(rawLen)/256 = 32768 + 4*rawLen blocks, about 0.3 s + 33 us per input byte, and the scripts need 0.3 s to 1.1 s on the unchanged tree (the tighter watchdog below does not apply to them: it was applied until a slower machine showed that the slowest script used 80% of it); "
+        "bodies built to drive a decoder up to its documented WORK cap (these scan scripts: 64 walks over the frame's coefficient blocks; JBIG2 storms of large regions without payload: min(declared pixels, 64 Mi + 4096 per input byte, 512 Mi) pixel operations, whatever the output) get 500 ns of CPU time per admitted operation on top of the general allowance - the unchanged tree needs 35 to 130 ns per operation, and the caps' own constants (e.g. 64 Mi pixel operations for any JBIG2 input: 3 to 5.5 s) are not covered by 5 s + 50 us per byte; every other chain with a JBIG2Decode stage (mutated files, patched page and region sizes) gets the same term for what the cap admits for the bytes that stage can see (raw length if it is the first stage, else the hard cap of 512 Mi operations); "
         "the pass cap itself (blocks walked <= maxProgPasses x blocks allocated + 1, dct_pass_cap) is tied through the hook VerifProgVisits, which reads the real decoder's counter - a change that stops counting some visits is seen by the counter comparison and by the watchdog, not by the theorem",
         "DCT frame kinds: DCTFrames.v models only which SOS may follow which and when rows are written (not the entropy decoding); it is compared on every SOF marker C0..CF x nine scan scripts x 1/3/4 components, and every such body is held to the size of the image it declares (output-bound); rows already written when a file is refused can be lost in the decoder's output buffer, so only the verdict is compared then",
         "budget identity along the chain is measured, not proved for the implementation: JBIG2, DCT, CCITT and predictor stages behind Flate/LZW/RunLength/ASCIIHex stages with enormously expanding bodies are held to StreamBudget(RAW length) by the live-heap and TotalAlloc oracles (chain_memory_bound states the shared cell for the model)",
